@@ -102,7 +102,7 @@ def possibleE (rest : List Token) : Except Err (Option (String × Nat)) :=
   | t :: rest' =>
     if t.text == "" then .ok none
     else if startsWithE t.text && t.text.length > 1 && secondIsDigit t.text then .ok (some (t.text, 1))
-    else if startsWithEe t.text then
+    else if t.text == "e" || t.text == "E" then      -- exactly the token `e+3` starts with (F39 repair)
       match rest' with
       | [] => .error .value
       | sgn :: rest'' =>
